@@ -10,6 +10,11 @@ Two exhaustive enumerations:
           gains x block rows x method x real/complex) around the payload alphabet; one global ground-truth system
           (checks/_truth.py) seen by every setup at its own sensors, amplitude and initial condition. Routes:
           MultiSetup_PreGER + SSIcov_MS/SSIdat_MS + mpe ("class") and ssi.SSI_multi_setup + ssi.SSI_poles ("func").
+          On a fixed, index-determined subset of the lattice points a third pass of the class route is made on a fresh
+          multi-setup object on which one or two preprocessing calls FAILED first (decimate_data / filter_data /
+          detrend_data with illegal arguments, raised and caught by the caller as in a notebook): nothing was
+          preprocessed, so the split must still be the split of the records handed in and the identification must
+          still be exact ("class-after-failed-prep").
 """
 import functools
 import itertools
@@ -25,7 +30,9 @@ TECHNIQUE = ("complete enumeration of all ordered reference subsets for every ch
              "exhaustive walk of a finite multi-setup configuration lattice around a deterministic payload alphabet "
              "with a ground-truth global system as the model (identification)")
 LEVEL_TEXT = ("split: decided for every layout in the stated scope, exact equality; identification: every lattice point "
-              "executed on the real code through both routes and compared with the known global system")
+              "executed on the real code through both routes and compared with the known global system; on 2 of 7 lattice "
+              "points (by index) additionally through the class route on an object that has seen one or two failed "
+              "(raised and caught) preprocessing calls, every member of a stated list of illegal calls in rotation")
 RULE = ("split: one case = (channel count, ordered reference list, length of the dataset list, position in it); "
         "non-trivial = the reference list is not the ascending prefix 0..k-1. ident: one case = one lattice point; "
         "non-trivial = m >= 2, or references not at the first channel positions, or some per-setup gain != 1; "
@@ -38,7 +45,8 @@ ASSUMPTIONS = [
     "combined guard kappa = cO*cR*cX^2 <= 1e7 (worst factors over the setups): the covariance-type Hankel matrix squares the conditioning of the state sequence; the six worst lattice corners (m=3, two references, one roving sensor per setup, real shapes, kappa up to 9e7, xi error 4e-8) are rejected by it",
     "the results are read at order 2m; the largest order asked for (ordmax) rotates on the lattice index over 2m, 2m+2 and the two ends of the band br*nref < ordmax <= (br+1)*nref in which the reference block used for re-basing each setup is wide instead of tall (the library accepts it: its Hankel matrix has br+1 block rows)",
     "damping profile, fs and the record lengths of the setups are assigned by fixed rotation on the lattice index; quick additionally rotates the pole placement and the non-unit gain assignments (thorough: all placements, all four gain assignments)",
-    "the 'after every preprocessing step' clause of the split is covered by C14's BFS, not here",
+    "the 'after every preprocessing step' clause of the split is covered for SUCCESSFUL steps by C14's BFS, not here; here: preprocessing calls that raise (FAILING: illegal q / n / ftype / keyword / axis, cut-off outside (0, fs/2), unknown band or trend type, break point or filter padding beyond the shortest record - the last two fail only at the shortest record, i.e. after earlier records of the list have been processed when there are >= 3 setups) and are caught by the caller leave nothing preprocessed: the records are still the noise-free responses of the premise, so the split and the identification are judged exactly as on a fresh object",
+    "whether a call of FAILING raises is decided by scipy's argument checking, not by the property: a call that is accepted is counted (failed-prep:accepted:*), the object is not judged, and the vacuity monitors demand raised calls of all three methods",
 ]
 
 HC = dict(conj=False, xi_max=10.0, mpc_lim=0.0, mpd_lim=1e9, cov_max=1e9)
@@ -51,7 +59,7 @@ GAINS = {"unit": (1.0, 1.0, 1.0, 1.0), "g1": (1e-2, 1e2, -1e-1, 1.0), "g2": (1e2
 METHODS = ("cov_mm", "dat")
 NREC = (1000, 1300, 900, 1100)
 FS = (102.4, 12.5)           # non-integer sampling rates
-CLASSES = (("raises", "raises"), ("table-shape", "layout"), ("shape-dim", "layout"), ("mpe-type", "layout"),
+CLASSES = (("raises", "raises"), ("split", "records-changed-by-failed-call"), ("table-shape", "layout"), ("shape-dim", "layout"), ("mpe-type", "layout"),
            ("mpe-shape", "layout"), ("count", "poles"), ("pairing", "poles"), ("lam", "poles"), ("fn", "poles"),
            ("xi", "poles"), ("mpe-fn", "poles"), ("mpe-xi", "poles"), ("mac", "shape"), ("mpe-mac", "shape"),
            ("norm", "normalisation"), ("mpe-norm", "normalisation"), ("gain", "gain-dependent"))
@@ -290,7 +298,7 @@ def _key(case, route, probs):
     return f"ident:{route}:{case['meth']}:{first}"
 
 
-def judge(t, case, seed, route, gname, probs, errs):
+def judge(t, case, seed, route, gname, probs, errs, note=""):
     t.transitions += 1
     t.validated += 1
     for k, v in errs.items():
@@ -298,7 +306,7 @@ def judge(t, case, seed, route, gname, probs, errs):
     if probs:
         t.violation(_key(case, route, probs),
                     f"ident:{route}:{case['meth']} gains={gname}{GAINS[gname][:case['nset']]} " + "; ".join(p[1] for p in probs[:4])
-                    + f" | case {_short(case)}", dict(case, seed=seed))
+                    + (f" | after {note}" if note else "") + f" | case {_short(case)}", dict(case, seed=seed))
         t.outcomes[f"{route}:disagree"] += 1
     else:
         t.outcomes[f"{route}:agree"] += 1
@@ -333,6 +341,81 @@ def _invariance(base, cur):
     return e
 
 
+# ---------------------------------------------------------------------------------------------------------------------
+# preprocessing calls that fail. What a user types wrongly in a notebook cell: the call raises, the cell fails, the user
+# goes on with the same object (here: try/except). Nothing has been preprocessed, so the object still holds the records
+# of the premise. Every call below raises on any scipy that checks its arguments (kwargs are functions of the case's
+# sampling rate and record lengths only).
+def _n_short(Ns):
+    """Filter order whose zero-phase padding, 3*(order + 1) samples, exceeds the SHORTEST record of the list (and, for
+    the record lengths used here, no other): the call fails at that record, after the earlier ones went through."""
+    return int(math.ceil(min(Ns) / 3))
+
+
+FAILING = (
+    ("decimate:q-float", "decimate_data", lambda fs, Ns: dict(q=2.0)),
+    ("decimate:ftype-unknown", "decimate_data", lambda fs, Ns: dict(q=2, ftype="FIR")),
+    ("decimate:n-float", "decimate_data", lambda fs, Ns: dict(q=3, n=3.5)),
+    ("decimate:keyword-unknown", "decimate_data", lambda fs, Ns: dict(q=2, zero_phas=True)),
+    ("decimate:record-too-short", "decimate_data", lambda fs, Ns: dict(q=4, n=_n_short(Ns))),
+    ("decimate:q-zero", "decimate_data", lambda fs, Ns: dict(q=0)),
+    ("decimate:q-string", "decimate_data", lambda fs, Ns: dict(q="2")),
+    ("decimate:axis-out-of-range", "decimate_data", lambda fs, Ns: dict(q=2, axis=5)),
+    ("decimate:q-negative", "decimate_data", lambda fs, Ns: dict(q=-2)),
+    ("filter:above-nyquist", "filter_data", lambda fs, Ns: dict(Wn=fs)),
+    ("filter:at-nyquist", "filter_data", lambda fs, Ns: dict(Wn=fs / 2, order=4)),
+    ("filter:zero", "filter_data", lambda fs, Ns: dict(Wn=0.0)),
+    ("filter:btype-unknown", "filter_data", lambda fs, Ns: dict(Wn=fs / 8, btype="lowpas")),
+    ("filter:order-float", "filter_data", lambda fs, Ns: dict(Wn=fs / 8, order=2.5)),
+    ("filter:band-for-lowpass", "filter_data", lambda fs, Ns: dict(Wn=(fs / 16, fs / 8))),
+    ("filter:scalar-for-bandpass", "filter_data", lambda fs, Ns: dict(Wn=fs / 8, btype="bandpass")),
+    ("filter:record-too-short", "filter_data", lambda fs, Ns: dict(Wn=fs / 8, order=_n_short(Ns))),
+    ("detrend:type-unknown", "detrend_data", lambda fs, Ns: dict(type="quadratic")),
+    ("detrend:breakpoint-beyond-shortest-record", "detrend_data", lambda fs, Ns: dict(bp=min(Ns) + 50)),
+    ("detrend:keyword-unknown", "detrend_data", lambda fs, Ns: dict(typ="constant")),
+    ("detrend:axis-out-of-range", "detrend_data", lambda fs, Ns: dict(axis=7)),
+)
+_FP_DEC = tuple(i for i, f in enumerate(FAILING) if f[1] == "decimate_data")
+_FP_OTH = tuple(i for i, f in enumerate(FAILING) if f[1] != "decimate_data")
+_FP_PARTIAL = ("decimate:record-too-short", "filter:record-too-short", "detrend:breakpoint-beyond-shortest-record")
+FP_ROUTE = "class-after-failed-prep"
+
+
+def failed_prep_plan(idx, gi):
+    """Which failing calls the object of lattice point idx, gain assignment number gi, sees before the algorithms are added:
+    None for 5 of 7 lattice points; else one or two members of FAILING. The five patterns (a decimation; decimation then
+    other; other then decimation; two decimations; two others) and the members rotate on independent counters."""
+    if idx % 7 not in (1, 4):
+        return None
+    k = idx * len(GAINS) + gi
+    r = k // 5
+    d1, d2 = _FP_DEC[r % len(_FP_DEC)], _FP_DEC[(r + 1 + (r // len(_FP_DEC)) % (len(_FP_DEC) - 1)) % len(_FP_DEC)]
+    o1, o2 = _FP_OTH[r % len(_FP_OTH)], _FP_OTH[(r + 1 + (r // len(_FP_OTH)) % (len(_FP_OTH) - 1)) % len(_FP_OTH)]
+    return ((d1,), (d1, o1), (o1, d1), (d1, d2), (o1, o2))[k % 5]
+
+
+def _failed_prep(t, ms, plan, fs, Ns):
+    """Perform the failing calls on ms. Returns (text of what was done, None) or (text, label of a call that was accepted)."""
+    done = []
+    for i in plan:
+        label, method, kw = FAILING[i]
+        kw = kw(fs, Ns)
+        t.evaluations += 1
+        try:
+            getattr(ms, method)(**kw)
+        except Exception as e:      # the user's try/except (or failed notebook cell)
+            done.append(f"{method}({', '.join(f'{a}={b!r}' for a, b in kw.items())}) raised {type(e).__name__}")
+            t.outcomes[f"failed-prep:raised:{method}"] += 1
+            t.outcomes[f"failed-prep:raised:{label}"] += 1
+            if label in _FP_PARTIAL and int(np.argmin(Ns)) > 0:
+                t.outcomes["failed-prep:raised-at-a-later-record(earlier records of the list had gone through)"] += 1
+            continue
+        t.outcomes[f"failed-prep:accepted:{label}"] += 1
+        return "; ".join(done), label
+    t.outcomes[f"failed-prep:calls={len(plan)}"] += 1
+    return "; ".join(done), None
+
+
 def run_ident(t, case, seed):
     from pyoma2.algorithms import SSIcov_MS, SSIdat_MS
     from pyoma2.functions import ssi
@@ -363,16 +446,19 @@ def run_ident(t, case, seed):
     t.outcomes["ordmax:" + ("2m" if om == o else "above-2m:reference-block-" + ("wide" if om > br * nref else "tall"))] += 1
     fs = case["fs"]
     base = {}
+    Ns = [su["N"] for su in setups]
     for gname in case["gains"]:
         gains = GAINS[gname][:nset]
+        plan = failed_prep_plan(case["idx"], list(GAINS).index(gname))
         t.outcomes["gain:" + ("unit" if gname == "unit" else "non-unit")] += 1
         datasets = [gains[s] * setups[s]["Y"] for s in range(nset)]
         ref_ind = [[int(c) for c in su["refpos"]] for su in setups]
         _collider(seed, [d.shape for d in datasets], ref_ind, fs, br, om, meth)
-        for route in ("func", "class"):
+        for route in ("func", "class") + ((FP_ROUTE,) if plan else ()):
             matched = []
             res = None
             alg = ms = None
+            note = ""
             try:
                 if route == "func":
                     Ys = [{"ref": datasets[s][:, su["refpos"]].T.copy(), "mov": datasets[s][:, su["movpos"]].T.copy()}
@@ -381,7 +467,22 @@ def run_ident(t, case, seed):
                     Fn, Xi, Ph, Lam, *_ = ssi.SSI_poles(Obs, A, C, int(om), 1.0 / fs)
                     t.evaluations += 2
                 else:
-                    ms = MultiSetup_PreGER(fs=fs, ref_ind=ref_ind, datasets=[d.copy() for d in datasets])
+                    ms = MultiSetup_PreGER(fs=fs, ref_ind=ref_ind if route == "class" else [list(r) for r in ref_ind],
+                                           datasets=[d.copy() for d in datasets])
+                    if route == FP_ROUTE:
+                        # one or two preprocessing calls that raise; then the analysis goes on with the same object
+                        note, accepted = _failed_prep(t, ms, plan, fs, Ns)
+                        if accepted:
+                            t.not_judged += 1
+                            continue
+                        why = _same(ms.data, model_split(datasets, ref_ind))
+                        if why is None and not (len(ms.datasets) == nset and all(
+                                np.array_equal(a, b) for a, b in zip(ms.datasets, datasets))):
+                            why = "the datasets of the object are no longer the records it was built from"
+                        if why:
+                            judge(t, case, seed, route, gname, [("split", f"split after the failed call(s): {why}")], {}, note)
+                            continue
+                        t.outcomes["failed-prep:split-intact"] += 1
                     cls = SSIcov_MS if meth == "cov_mm" else SSIdat_MS
                     alg = cls(name="a", method=meth, br=int(br), ordmax=int(om), hc=dict(HC))
                     ms.add_algorithms(alg)
@@ -391,7 +492,7 @@ def run_ident(t, case, seed):
                     t.evaluations += 1
                 res = _tables(S, Lam, Fn, Xi, Ph, L, matched)
             except Exception as e:
-                judge(t, case, seed, route, gname, [("raises", f"{type(e).__name__}: {str(e)[:160]}")], {})
+                judge(t, case, seed, route, gname, [("raises", f"{type(e).__name__}: {str(e)[:160]}")], {}, note)
             if res is None:
                 continue
             probs, errs = res
@@ -406,8 +507,10 @@ def run_ident(t, case, seed):
                     if bad:
                         probs = [("gain", "result depends on the per-setup gains: " + ", ".join(f"d{k}={e[k]:.3g}" for k in bad))]
                     t.outcomes[f"{route}:gain-invariance-compared"] += 1
-            judge(t, case, seed, route, gname, probs, errs)
-            if not probs:
+            if probs and route == FP_ROUTE:
+                note += f" (the object now has fs={ms.fs!r}, dt={ms.dt!r}; built with fs={fs!r})"
+            judge(t, case, seed, route, gname, probs, errs, note)
+            if not probs and route != FP_ROUTE:
                 # second identification of the SAME record objects (no copies in between): still exact, i.e. the first one did
                 # not alter the records it was given (func: the list of ref/mov dicts; class: the data bound to the setup)
                 try:
@@ -430,10 +533,11 @@ def run_ident(t, case, seed):
                           "channel_to_global_row": [su["rows"] for su in setups], "ref_ind": ref_ind,
                           "true_fn": S.fn, "identified_fn_at_order_2m": np.sort(np.asarray(Fn)[:, o]), "max_rel_err": errs,
                           "guards": g})
-            if route == "class":
+            if route != "func":
+                mpe_route = "mpe" if route == "class" else "mpe-after-failed-prep"
                 if probs:
                     t.not_judged += 1
-                    t.outcomes["mpe:not-judged(tables wrong)"] += 1
+                    t.outcomes[f"{mpe_route}:not-judged(tables wrong)"] += 1
                     continue
                 try:
                     ms.mpe("a", sel_freq=[float(f) for f in S.fn], order=int(o))
@@ -442,7 +546,7 @@ def run_ident(t, case, seed):
                     res = T.compare_modes(S, R.Fn, R.Xi, R.Phi)
                 except Exception as e:
                     res = ([("raises", f"{type(e).__name__}: {str(e)[:160]}")], {})
-                judge(t, case, seed, "mpe", gname, *res)
+                judge(t, case, seed, mpe_route, gname, *res, note)
 
 
 _NOISE = {}
@@ -510,7 +614,15 @@ def explore(ctx):
                   "gain_assignments": {k: list(v) for k, v in GAINS.items()},
                   "gains_per_case": "all four" if ctx.thorough else "unit + one of g1..g3 by rotation",
                   "block_rows": "max(ceil(2m/n_ref) + 1, 3) + offset, offset in [0, 2]", "method": list(METHODS),
-                  "shapes": ["real", "complex"], "routes": ["MultiSetup_PreGER+SSIcov_MS|SSIdat_MS+mpe", "SSI_multi_setup+SSI_poles"],
+                  "shapes": ["real", "complex"], "routes": ["MultiSetup_PreGER+SSIcov_MS|SSIdat_MS+mpe", "SSI_multi_setup+SSI_poles",
+                                                                "MultiSetup_PreGER, failed preprocessing call(s), then +SSIcov_MS|SSIdat_MS+mpe"],
+                  "failed_preprocessing": {
+                      "where": "lattice points with index % 7 in (1, 4), every gain assignment of the point, fresh object, before add_algorithms",
+                      "calls": [f"{f[1]}: {f[0].split(':', 1)[1]}" for f in FAILING],
+                      "patterns": ["one decimation", "decimation then filter/detrend", "filter/detrend then decimation",
+                                   "two different decimations", "two different filter/detrend calls"],
+                      "rotation": "pattern and members on independent counters of 4*index + gain number",
+                      "objects": sum(1 for c in idc for gn in c["gains"] if failed_prep_plan(c["idx"], list(GAINS).index(gn)))},
                   "ordmax": "one of " + str(list(OM_MODES)) + " per case by rotation (results read at order 2m)",
                   "pole_placement": list(T.PLACEMENTS) if ctx.thorough else "one of " + str(list(T.PLACEMENTS)) + " per cell by rotation",
                   "rotated": {"damping": list(T.DAMPINGS), "fs": list(FS)},
@@ -522,7 +634,11 @@ def explore(ctx):
     ctx.require("split:agree:pre_multisetup", "split:agree:MultiSetup_PreGER.data", "split:n=6", "split:datasets=3",
                 "func:agree", "class:agree", "func-repeat:agree", "class-repeat:agree", "mpe:agree", "func:gain-invariance-compared", "class:gain-invariance-compared",
                 "shapes:complex", "shapes:real", "method:cov_mm", "method:dat", "refs:elsewhere", "refs:first-positions",
-                "gain:non-unit")
+                "gain:non-unit",
+                FP_ROUTE + ":agree", "mpe-after-failed-prep:agree", FP_ROUTE + ":gain-invariance-compared", "failed-prep:split-intact",
+                "failed-prep:raised:decimate_data", "failed-prep:raised:filter_data", "failed-prep:raised:detrend_data",
+                "failed-prep:calls=1", "failed-prep:calls=2",
+                "failed-prep:raised-at-a-later-record(earlier records of the list had gone through)")
 
 
 def replay(case):
